@@ -28,8 +28,40 @@ GEN = tspec.TypeGen(max_depth=3, dumpable_unions=False, disjoint_unions=False)
 GEN_NEAR = tspec.TypeGen(max_depth=3)
 
 
+ENUM_SPEC = ["enum", {"name": "E9", "base": "Enum", "members": [["A", 1], ["B", "b"]]}]
+
+
+@st.composite
+def st_case_dump_focus(draw):
+    """Dumping of models whose field dumpers can fail in different ways (enum lookup -> KeyError, nested TypedDict with a
+    missing key -> KeyError, Decimal.__str__ on a wrong object -> TypeError ...), with optional (NotRequired) keys present:
+    the three generated dumper variants guard the field *access* and the field *dumper* differently."""
+    inner = ["model", {"name": "M1", "kind": "typeddict", "fields": [{"n": "k", "t": ["int"], "d": None},
+                                                                     {"n": "e", "t": ENUM_SPEC, "d": None}]}]
+    kind = draw(st.sampled_from(["typeddict", "typeddict", "dataclass", "attrs", "namedtuple"]))
+    n = draw(st.integers(1, 4))
+    names = draw(st.lists(st.sampled_from(tspec.FIELD_NAMES), min_size=n, max_size=n, unique=True))
+    fields = []
+    for nm in names:
+        ft = draw(st.sampled_from([ENUM_SPEC, inner, ["decimal"], ["list", ENUM_SPEC, "typing"], ["int"], ["date"],
+                                   ["dict", ["str"], ENUM_SPEC, "typing"], ["optional", ENUM_SPEC, "optional"]]))
+        d = ["nr"] if kind == "typeddict" and draw(st.booleans()) else None
+        fields.append({"n": nm, "t": ft, "d": d})
+    fields = [f for f in fields if f["d"] is None] + [f for f in fields if f["d"] is not None]
+    t = ["model", {"name": "M0", "kind": kind, "fields": fields}]
+    val = draw(tspec.st_value(t, min_size=1))
+    for f in fields:   # optional keys present: that is the interesting path
+        if f["n"] not in val["f"]:
+            val["f"][f["n"]] = draw(tspec.st_value(f["t"], min_size=1))
+    nbad = draw(st.integers(1, 2))
+    bad = [[draw(st.integers(0, 50)), draw(st.sampled_from([5, "zz", None, "__delete__", {"$": "opaque"}, [1]]))] for _ in range(nbad)]
+    return {"dir": "dump", "t": t, "v": val, "bad": bad, "strict": True, "provs": [], "layouts": {}}
+
+
 @st.composite
 def st_case(draw):
+    if draw(st.integers(0, 6)) == 0:
+        return draw(st_case_dump_focus())
     direction = "dump" if draw(st.integers(0, 2)) == 0 else "load"
     if direction == "dump":
         t = draw(GEN_NEAR.strategy())
